@@ -62,6 +62,10 @@ def scenarios(quick):
                   ["burst", "rcreate!:2:1,2", "conf+2", "rdelete", "create:2", "conf-2", "create:1"],
                   ["create:1", "rcreate!:1:1", "rcreate:1:1", "settle", "rdelete", "delete", "create:1"]):
         out.append({"name": "unloadable-replica", "steps": steps})
+    # a client write without a deadline sits in a partition group that still has a leader but can no longer commit (the
+    # replica it was given does not answer); the write gives up at the server's own limit - the dataset is then
+    # deleted and the catalogue keeps changing: unloading the partition must not wait for that caller for ever
+    out.append({"name": "stuck-write", "steps": ["rcreate:2:1", "sleep:1800", "conf+2", "sleep:1800", "fwrite", "rdelete", "create:1", "create:1", "delete"]})
     out += replay_readd()
     # membership changes while other goroutines of the node dial peers (two locks in cluster.Conn: address book, connections)
     dchurn = []
